@@ -308,6 +308,7 @@ type clientRoles struct {
 	forward   *ssa.Function // builds the request and executes it
 	intercept *ssa.Function // answers a parsed system statement
 	send      map[*ssa.Function]bool
+	ihelp     map[*ssa.Function]bool // private helpers of the interceptor
 }
 
 func getClientRoles(p *Prog) *clientRoles {
@@ -347,7 +348,47 @@ func getClientRoles(p *Prog) *clientRoles {
 	if cr.forward == nil || cr.intercept == nil || len(cr.send) == 0 {
 		fatalf("anchor: could not resolve forward/intercept/send methods of %s by role", cr.cl.Obj().Name())
 	}
+	// private helpers the interceptor was split into
+	cr.ihelp = map[*ssa.Function]bool{}
+	var walk func(f *ssa.Function, d int)
+	walk = func(f *ssa.Function, d int) {
+		if d > 3 {
+			return
+		}
+		eachCall(f, func(c ssa.CallInstruction) {
+			callee := c.Common().StaticCallee()
+			if callee == nil || callee.Blocks == nil || callee.Pkg != f.Pkg || callee.Parent() != nil || cr.send[callee] || callee == cr.forward || callee == cr.intercept || cr.ihelp[callee] {
+				return
+			}
+			if recvNamed(callee) != cr.cl && callee.Signature.Recv() != nil {
+				return // methods of other types (the Proxy's session table, ...) keep their own rules
+			}
+			if !onlyCalledFrom(p, callee, cr.intercept, 4) {
+				return
+			}
+			cr.ihelp[callee] = true
+			walk(callee, d+1)
+		})
+	}
+	walk(cr.intercept, 0)
 	return cr
+}
+
+// inIntercept: fn is the interceptor or one of the private helpers it was split into.
+func (cr *clientRoles) inIntercept(fn *ssa.Function) bool {
+	fn = rootFn(fn)
+	return fn == cr.intercept || cr.ihelp[fn]
+}
+
+// interceptFns lists the interceptor and its helpers.
+func (cr *clientRoles) interceptFns() []*ssa.Function {
+	out := []*ssa.Function{cr.intercept}
+	var hs []*ssa.Function
+	for f := range cr.ihelp {
+		hs = append(hs, f)
+	}
+	sort.Slice(hs, func(i, j int) bool { return hs[i].String() < hs[j].String() })
+	return append(out, hs...)
 }
 
 func c09Routing(p *Prog, r *Report) {
